@@ -218,7 +218,8 @@ def linkCfi (w : World) (a : Arch) (mask : Nat) (mem : Mem) (instr sp fp lr : Na
     let toks := tokenize rec.init
     rec.adds.isEmpty &&
     if first ∧ a.leafOk ∧ toks = leafToks a then
-      decide (e.sp = sp) && decide (e.ret = stripOf a mask lr) && e.fp == some (stripOf a mask fp)
+      decide (e.sp = sp) && decide (lr ≤ a.regMax) && decide (e.ret = stripOf a mask lr) &&
+      e.fp == some (stripOf a mask fp)
     else
       let bytes := e.sp - sp
       decide (sp < e.sp) && decide (p ≤ bytes) &&
